@@ -188,3 +188,33 @@ def permute_cov(cov, perm, m):
     if cov.ndim == 2:
         return cov[idx][:, idx].copy()
     return cov[:, idx][:, :, idx].copy()
+
+
+# ----------------------------------------------------------------------------- t-tests from variances
+def t_test_reference(means, model_var, diff_var, nc_var_lower, ceiling, dof):
+    """p-values of the documented t-tests from per-model means and the three variance families:
+    pairwise two-sided on mean_i - mean_j with diff_var (pair order of `pairs`), against zero
+    one-sided ('greater') with model_var, against the LOWER noise ceiling two-sided with the
+    model-versus-lower-ceiling variance.  A non-positive variance has no t statistic: flagged in
+    the `*_ok` masks."""
+    means = [float(x) for x in np.asarray(means, dtype=float).ravel()]
+    m = len(means)
+    tiny = 1e-12
+    p_zero, zero_ok, p_nc, nc_ok = [], [], [], []
+    for i in range(m):
+        v = float(np.asarray(model_var, dtype=float).ravel()[i])
+        zero_ok.append(v > tiny)
+        p_zero.append(float(stats.t.sf(means[i] / math.sqrt(v), dof)) if v > tiny else float('nan'))
+        w = float(np.asarray(nc_var_lower, dtype=float).ravel()[i])
+        nc_ok.append(w > tiny)
+        p_nc.append(2.0 * float(stats.t.sf(abs(means[i] - ceiling) / math.sqrt(w), dof)) if w > tiny else float('nan'))
+    p_pair = np.ones((m, m))
+    pair_ok = np.ones((m, m), dtype=bool)
+    for k, (i, j) in enumerate(pairs(m)):
+        v = float(np.asarray(diff_var, dtype=float).ravel()[k])
+        ok = v > tiny
+        p = 2.0 * float(stats.t.sf(abs(means[i] - means[j]) / math.sqrt(v), dof)) if ok else float('nan')
+        p_pair[i, j] = p_pair[j, i] = p
+        pair_ok[i, j] = pair_ok[j, i] = ok
+    return {'p_pair': p_pair, 'pair_ok': pair_ok, 'p_zero': np.array(p_zero), 'zero_ok': np.array(zero_ok, dtype=bool),
+            'p_nc': np.array(p_nc), 'nc_ok': np.array(nc_ok, dtype=bool)}
